@@ -86,9 +86,20 @@ pub fn run_grid(run: &Run, tier: Tier, profile: &str, shard: usize, nshards: usi
         for op in &pre {
           let mut w = p.clone();
           w.push(*op);
-          let out = pair.run_word(st, &w, &Spec { oracles: 0, ..spec.clone() }, 0);
-          if out.disabled_at.is_none() {
-            next.push(w);
+          let r = std::panic::catch_unwind(std::panic::AssertUnwindSafe(|| pair.run_word(st, &w, &Spec { oracles: 0, ..spec.clone() }, 0)));
+          match r {
+            Ok(out) => {
+              if out.disabled_at.is_none() {
+                next.push(w);
+              }
+            }
+            Err(pl) => {
+              // a panic while building a state is a violation of its own (reported once per history)
+              let msg = pl.downcast_ref::<String>().cloned().or_else(|| pl.downcast_ref::<&str>().map(|s| s.to_string())).unwrap_or_default();
+              let last = *w.last().unwrap();
+              run.violation(Violation { property: "C04".into(), signature: format!("C04:panic:{}:prefix:{}", op_class(&last), profile), message: format!("[{} profile, {:?} start {} history {}] panicked: {}", profile, cfg, st.name, word_str(&w), msg), replay: json!({"engine": "hist", "tag": "C04", "profile": profile, "cfg": cfg, "start": st, "word": w, "oracles": or, "sync": true, "unsync": true, "diff": false}) });
+              drop(std::mem::replace(&mut pair, Pair::new(cfg, st, &spec)));
+            }
           }
         }
       }
